@@ -79,7 +79,7 @@ def mutable_ids(x, acc=None, depth=0):
 def bad_key_owner(T, w, defs, depth=0):
     """Kind of type ('cls' / 'map' / '?') owning the first dict in wire term w that has a non-primitive-exact key."""
     prim = {"none": "NoneType", "bool": "bool", "int": "int", "float": "float", "str": "str"}
-    while T.get("k") in ("newtype", "alias", "salias", "final", "classvar"):
+    while T.get("k") in ("newtype", "alias", "salias", "final", "classvar", "noinit", "annotated"):
         T = T["a"]
     if depth > 20 or not isinstance(w, dict):
         return ""
